@@ -105,6 +105,37 @@ class World:
             for s in (p4, p4.replace(" +type=crs", "")):
                 self.lossy_names.add(self.add_text(s))
                 self.lossy_names.add(self.info[self.name(s)]["srs"])
+        # spellings outside the ordinary pool: compound codes `EPSG:h+v` in both letter cases (odc-geo rejects them
+        # today: whether a spec is accepted is part of the correspondence, and whatever is accepted has to obey
+        # the laws), pyproj objects built from them, their WKT and URN forms, registered compound / 3-D /
+        # geocentric codes, a bound CRS
+        self.exotic: Dict[int, List[Tuple[str, Any]]] = {}
+        for h, v in ((4326, 5773), (4326, 3855), (32633, 5773)):
+            if h not in self.codes:
+                continue
+            ex = self.exotic.setdefault(h, [])
+            for s in (f"EPSG:{h}+{v}", f"epsg:{h}+{v}", f"urn:ogc:def:crs,crs:EPSG::{h},crs:EPSG::{v}"):
+                n = self.add_text(s)
+                if self.info[n] is None:
+                    continue
+                ex += [("str", n), ("pyproj-text", n)]
+                ex.append(("str", self.add_text(pyproj.CRS.from_user_input(s).to_wkt())))
+        for h, extra in ((4326, (9707, 9518, 4979, 4978)), (32633, ())):
+            if h not in self.codes:
+                continue
+            for c in extra:
+                try:
+                    p = pyproj.CRS.from_epsg(c)
+                except Exception:  # pylint: disable=broad-except
+                    continue
+                self.einfo[c] = self.describe(p, f"EPSG:{c}")
+                self.add_text(p.srs)
+                self.exotic[h] += [("int", c), ("str", self.add_text(f"epsg:{c}")), ("pyproj-epsg", c)]
+        if 4326 in self.codes:
+            bound = "+proj=longlat +ellps=bessel +towgs84=598.1,73.7,418.2,0.202,0.045,-2.455,6.7 +no_defs +type=crs"
+            n = self.add_text(bound)
+            if self.info[n] is not None:
+                self.exotic[4326] += [("str", n), ("pyproj-text", n)]
         # specs that pyproj rejects
         self.bad_names = [self.add_text("EPSG:999999"), self.add_text("not-a-crs")]
         self.einfo[999999] = None
@@ -135,6 +166,16 @@ class World:
             self.einfo[c] = {"sys": 100000 + c, "srs": f"EPSG:{c}", "wkt": "#w", "epsg": c}
             out.append(c)
         return out
+
+    def rejected(self, spec) -> bool:
+        """does odc-geo reject the spec today (as the model computes it: pyproj cannot parse it, or the text the
+        pyproj object reports starts with EPSG: and is not followed by a plain number)"""
+        kind, x = spec
+        d = self.einfo.get(x) if kind in ("int", "pyproj-epsg") else self.info.get(x)
+        if d is None:
+            return True
+        u = self.texts.get(d["srs"], d["srs"]).upper()
+        return u.startswith("EPSG:") and not u[5:].isdigit()
 
     # ---- Lean encoding
     def lean_tables(self) -> Tuple[str, str]:
